@@ -145,7 +145,7 @@ def main(run):
                        "strings with a superfluous prefix (incl. data16 before rel8 branches) or with a C01 length disagreement are not judged",
                        "syscall/sysenter/sysexit/sysret are excluded as the statement says"]
     cs = set(x86space.control_flow_cases())
-    cs |= set(x86space.cases("quick", run.seed, thin=run.pick(2, 1)))
+    cs |= set(x86space.cases("quick", run.seed, thin=1))
     cs |= set(x86space.x87_cases()[::3])
     cs = sorted(cs)
     runner.pmap(run, worker, runner.chunks(cs, 64))
